@@ -109,6 +109,9 @@ def index0(sym, N, dom):
             check(u == sorted('T%d' % i for i in range(n) if mult[i] == 1), 'unique(key=0)', key, rows, u)
             check(x == sorted('T%d' % i for i in range(n) if first[i]), 'distinct(key=0)', key, rows, x)
         check(petl.isunique(table, 0) == all(m == 1 for m in mult), 'isunique(0)')
+    coll = [[sym.pick('c%d' % i, [-1, -2, 0]), 'T%d' % i] for i in range(min(n, 2))]     # hash(-1) == hash(-2)
+    if len(coll) == 2:
+        check(petl.isunique([['k', 't']] + coll, 'k') == (coll[0][0] != coll[1][0]), 'isunique on hash-colliding keys', coll)
 
 
 def wholerow(sym, N, ncols, dom, bs=None):
